@@ -308,6 +308,10 @@ fn run_mutation(rt: &tokio::runtime::Runtime, hr: &HistRun, si: usize, kind: cha
 
 /// Every Database opened in this process leaves a few file descriptors behind (reader-pool threads keep their
 /// segment files); a long run needs more than the default limit.
+fn open_fds() -> u64 { std::fs::read_dir("/proc/self/fd").map(|d| d.count() as u64).unwrap_or(0) }
+fn nofile_limit() -> u64 {
+    unsafe { let mut lim = libc::rlimit { rlim_cur: 0, rlim_max: 0 }; if libc::getrlimit(libc::RLIMIT_NOFILE, &mut lim) != 0 { return 1024; } lim.rlim_cur as u64 }
+}
 fn raise_nofile_limit() {
     unsafe {
         let mut lim = libc::rlimit { rlim_cur: 0, rlim_max: 0 };
@@ -363,6 +367,8 @@ fn main() {
             let mut r = rng.fork();
             if i < start { continue; }
             if now_secs() >= deadline { break; }
+            // every Database opened so far has left descriptors behind: hand over to a fresh process before they run out
+            if i > start && open_fds() > nofile_limit() / 3 { out.flush(); println!("#next {i}"); return; }
             let h = gen_history(&mut r, thorough);
             let th = std::time::Instant::now();
             let hr = run_history(&rt, h);
@@ -384,11 +390,14 @@ fn main() {
             // plus, once per history: the empty directory of the next segment
             let with_events: Vec<usize> = (0..hr.sealed.len()).filter(|i| !hr.sealed[*i].evs.is_empty()).collect();
             if !with_events.is_empty() { muts.push((*r.pick(&with_events), 'd', St::Complete)); }
+            let mut short = false;
             for (si, kind, st) in &muts {
                 if now_secs() >= deadline { break; }
+                if open_fds() > nofile_limit() / 10 * 8 { short = true; break; }      // the rest of this history's states are skipped
                 run_mutation(&rt, &hr, *si, *kind, st, &mut out);
             }
             let _ = std::fs::remove_dir_all(&hr.root);
+            if short { drop(out); println!("#next {}", i + 1); return; }
         }
         return;
     }
@@ -407,9 +416,13 @@ fn main() {
             .stderr(std::process::Stdio::inherit()).output().unwrap();
         if !o.status.success() { eprintln!("c06: child process failed: {}", o.status); std::process::exit(o.status.code().unwrap_or(1)); }
         let text = String::from_utf8_lossy(&o.stdout);
-        n += text.lines().count();
-        print!("{text}");
-        start += 6;
+        let mut next = start + 6;
+        for l in text.lines() {
+            if let Some(x) = l.strip_prefix("#next ") { if let Ok(v) = x.trim().parse::<usize>() { next = v.max(start + 1); } continue; }
+            n += 1;
+            println!("{l}");
+        }
+        start = next;
     }
 }
 
